@@ -61,4 +61,39 @@ def solveLoop (search : Nat → Option Ans) (stopSeenAt : Option Nat) : Nat → 
       | some a => a
       | none => solveLoop search stopSeenAt fuel (k + 1)
 
+/-- the request becomes visible at poll `i0` of round `k0` and stays visible (the flags are never cleared during a check) -/
+def visible (stop : Option (Nat × Nat)) (k i : Nat) : Bool :=
+  match stop with
+  | none => false
+  | some (k0, i0) => decide (k0 < k) || (decide (k0 = k) && decide (i0 ≤ i))
+
+/-- the loop of `CoreSMTSolver::search` for round `k`: every iteration polls the flags after `propagate` and leaves the loop
+    undecided when a request is visible; `iter k i` is what iteration `i` concludes when it goes on (`none`: keep searching) -/
+def inner (iter : Nat → Nat → Option Ans) (stop : Option (Nat × Nat)) (k : Nat) : Nat → Nat → Option Ans
+  | 0, _ => none
+  | f + 1, i =>
+    if visible stop k i then none
+    else match iter k i with
+      | some a => some a
+      | none => inner iter stop k f (i + 1)
+
+/-- `solve_` over `search`: poll, run round `k` with its conflict budget, restart when undecided -/
+def solve2 (iter : Nat → Nat → Option Ans) (stop : Option (Nat × Nat)) (budget : Nat → Nat) : Nat → Nat → Ans
+  | 0, _ => .unknown
+  | F + 1, k =>
+    if visible stop k 0 then .unknown
+    else match inner iter stop k (budget k) 0 with
+      | some a => a
+      | none => solve2 iter stop budget F (k + 1)
+
+/-- what the seeded change `C25-stop-midloop-cancel` did, in the model: an iteration that sees the request goes on at level 0,
+    where a conflict means unsat.  The theorem above is false of it: -/
+def innerBroken (iter : Nat → Nat → Option Ans) (conflict : Nat → Nat → Bool) (stop : Option (Nat × Nat)) (k : Nat) : Nat → Nat → Option Ans
+  | 0, _ => none
+  | f + 1, i =>
+    if visible stop k i then (if conflict k i then some .unsat else none)
+    else match iter k i with
+      | some a => some a
+      | none => innerBroken iter conflict stop k f (i + 1)
+
 end Osmt.Conc
